@@ -29,8 +29,14 @@ pub fn key_of(id: usize) -> Vec<u8> {
         1 => vec![0x10],
         2 => vec![0x20],
         3 => vec![0x30],
+        // two long keys that differ in their last byte only (a comparison bounded in length, or
+        // stopping early, cannot tell them apart), both between [10] and [20]
         4 => vec![0x10; 600],
-        5 => vec![0x20; 600],
+        5 => {
+            let mut k = vec![0x10; 600];
+            k[599] = 0x11;
+            k
+        }
         _ => unreachable!(),
     }
 }
@@ -260,7 +266,7 @@ pub fn run(tier: Tier) -> i32 {
     let mut acc = acc;
     acc.merge(huge);
     rep.acc = acc;
-    rep.set("rule", json!("E2: all insert sequences of length <= n over 6 keys ('', 10, 20, 30, 600x10, 600x20) x {1-byte value, 1100-byte value (forces a block cut)} — sorted, duplicate and descending alike — x interval {1,2} x index_levels {0,1,2,3}, block_size 1024; each insert and the finish under catch_unwind; oracle: either a panic, or the independent block walk finds every block (data and index) strictly ascending; strictly ascending sequences must not panic; every accepted file is also streamed through a Merger into a second writer (one block, and 1024-byte blocks), which must panic or emit ascending blocks only; the sequences up to length 3 are run again with a 1.3 MB value at each position; distinct_nontrivial = sequences that are not strictly ascending"));
+    rep.set("rule", json!("E2: all insert sequences of length <= n over 6 keys ('', 10, 20, 30, 600x10, 599x10+11) x {1-byte value, 1100-byte value (forces a block cut)} — sorted, duplicate and descending alike — x interval {1,2} x index_levels {0,1,2,3}, block_size 1024; each insert and the finish under catch_unwind; oracle: either a panic, or the independent block walk finds every block (data and index) strictly ascending; strictly ascending sequences must not panic; every accepted file is also streamed through a Merger into a second writer (one block, and 1024-byte blocks), which must panic or emit ascending blocks only; the sequences up to length 3 are run again with a 1.3 MB value at each position; distinct_nontrivial = sequences that are not strictly ascending"));
     rep.set("bound", json!({"max_len": max_len, "symbols": base, "sequences": n_seq, "configurations": cfgs.len()}));
     rep.finish()
 }
